@@ -14,31 +14,32 @@ import (
 	"go/ast"
 	"sort"
 	"strings"
+	"sync"
 )
 
 type exitSignal struct{ code int }
 
 type cliScenario struct {
-	argv     []string
-	failOpen string // path whose opening fails ("" none)
-	failWrite  bool // every open for writing fails (the destination is unwritable)
-	failRename bool // every rename fails
-	failRead bool
+	argv                   []string
+	failOpen               string // path whose opening fails ("" none)
+	failWrite              bool   // every open for writing fails (the destination is unwritable)
+	failRename             bool   // every rename fails
+	failRead               bool
 	failParse, failCompile bool
 }
 
 type cliTrace struct {
-	exit       int
-	opens      []string // "r:path" / "w:path"
-	newArgs    string
-	strict     string
-	compileOut string // what Compile was given as writer
-	compiled   bool
+	exit        int
+	opens       []string // "r:path" / "w:path"
+	newArgs     string
+	strict      string
+	compileOut  string // what Compile was given as writer
+	compiled    bool
 	compileFile string
-	readFrom   string
-	und        string
-	moves      []string // "old -> new" / "remove path", in order (the parser may be generated beside the destination and moved)
-	renames    int
+	readFrom    string
+	und         string
+	moves       []string // "old -> new" / "remove path", in order (the parser may be generated beside the destination and moved)
+	renames     int
 }
 
 func runCLI(r *Repo, sc cliScenario) (tr cliTrace) {
@@ -74,32 +75,14 @@ func runCLI(r *Repo, sc cliScenario) (tr cliTrace) {
 		cell *Cell
 		kind string
 	}
-	flags := map[string]flagReg{}
-	var positional []string
-	reg := func(kind string) func(it *Interp, args []Value) []Value {
-		return func(it *Interp, args []Value) []Value {
-			name, _ := args[0].(string)
-			c := &Cell{args[1]}
-			flags[name] = flagReg{c, kind}
-			return []Value{&Ptr{c}}
-		}
+	type flagSet struct {
+		flags      map[string]flagReg
+		positional []string
 	}
-	regVar := func(kind string) func(it *Interp, args []Value) []Value {
-		return func(it *Interp, args []Value) []Value {
-			p, ok := args[0].(*Ptr)
-			if !ok {
-				panic(undecided{"flag.*Var with a destination that is not the address of a variable"})
-			}
-			name, _ := args[1].(string)
-			p.cell.v = args[2]
-			flags[name] = flagReg{p.cell, kind}
-			return nil
-		}
-	}
-	it.natives["flag.Bool"], it.natives["flag.String"], it.natives["flag.Int"] = reg("bool"), reg("string"), reg("int")
-	it.natives["flag.BoolVar"], it.natives["flag.StringVar"], it.natives["flag.IntVar"] = regVar("bool"), regVar("string"), regVar("int")
-	it.natives["flag.Parse"] = func(it *Interp, args []Value) []Value {
-		a := sc.argv[1:]
+	newFS := func() *flagSet { return &flagSet{flags: map[string]flagReg{}} }
+	deflt := newFS() // flag.CommandLine
+	sets := map[*Ext]*flagSet{}
+	parseArgs := func(fs *flagSet, a []string) {
 		for len(a) > 0 {
 			s := a[0]
 			if s == "-" || !strings.HasPrefix(s, "-") {
@@ -114,7 +97,7 @@ func runCLI(r *Repo, sc cliScenario) (tr cliTrace) {
 			if i := strings.Index(name, "="); i >= 0 {
 				name, val, hasVal = name[:i], name[i+1:], true
 			}
-			f, ok := flags[name]
+			f, ok := fs.flags[name]
 			if !ok {
 				panic(exitSignal{2}) // flag provided but not defined
 			}
@@ -131,23 +114,92 @@ func runCLI(r *Repo, sc cliScenario) (tr cliTrace) {
 				f.cell.v = val
 			}
 		}
-		positional = a
+		fs.positional = a
+	}
+	// the same operations on the default set (package functions) and on a FlagSet value (methods)
+	type op func(fs *flagSet, args []Value) []Value
+	reg := func(kind string) op {
+		return func(fs *flagSet, args []Value) []Value {
+			name, _ := args[0].(string)
+			c := &Cell{args[1]}
+			fs.flags[name] = flagReg{c, kind}
+			return []Value{&Ptr{c}}
+		}
+	}
+	regVar := func(kind string) op {
+		return func(fs *flagSet, args []Value) []Value {
+			p, ok := args[0].(*Ptr)
+			if !ok {
+				panic(undecided{"flag.*Var with a destination that is not the address of a variable"})
+			}
+			name, _ := args[1].(string)
+			p.cell.v = args[2]
+			fs.flags[name] = flagReg{p.cell, kind}
+			return nil
+		}
+	}
+	ops := map[string]op{
+		"Bool": reg("bool"), "String": reg("string"), "Int": reg("int"),
+		"BoolVar": regVar("bool"), "StringVar": regVar("string"), "IntVar": regVar("int"),
+		"NArg": func(fs *flagSet, args []Value) []Value { return []Value{int64(len(fs.positional))} },
+		"Arg": func(fs *flagSet, args []Value) []Value {
+			i, _ := args[0].(int64)
+			if int(i) < len(fs.positional) {
+				return []Value{fs.positional[i]}
+			}
+			return []Value{""}
+		},
+		"Args": func(fs *flagSet, args []Value) []Value {
+			s := &SliceV{elems: []Value{}}
+			for _, p := range fs.positional {
+				s.elems = append(s.elems, p)
+			}
+			return []Value{s}
+		},
+		"Parsed":        func(fs *flagSet, args []Value) []Value { return []Value{true} },
+		"SetOutput":     func(fs *flagSet, args []Value) []Value { return nil },
+		"Usage":         func(fs *flagSet, args []Value) []Value { return nil },
+		"PrintDefaults": func(fs *flagSet, args []Value) []Value { return nil },
+	}
+	for name, f := range ops {
+		f := f
+		it.natives["flag."+name] = func(it *Interp, args []Value) []Value { return f(deflt, args) }
+		it.natives["(*flag.FlagSet)."+name] = func(it *Interp, args []Value) []Value {
+			e, _ := args[0].(*Ext)
+			fs := sets[e]
+			if fs == nil {
+				panic(undecided{"method of a flag.FlagSet that flag.NewFlagSet did not create"})
+			}
+			return f(fs, args[1:])
+		}
+	}
+	it.natives["flag.Parse"] = func(it *Interp, args []Value) []Value {
+		parseArgs(deflt, sc.argv[1:])
 		return nil
 	}
-	it.natives["flag.NArg"] = func(it *Interp, args []Value) []Value { return []Value{int64(len(positional))} }
-	it.natives["flag.Arg"] = func(it *Interp, args []Value) []Value {
-		i, _ := args[0].(int64)
-		if int(i) < len(positional) {
-			return []Value{positional[i]}
-		}
-		return []Value{""}
+	it.natives["flag.NewFlagSet"] = func(it *Interp, args []Value) []Value {
+		e := &Ext{fmt.Sprintf("flag.FlagSet #%d (error handling %v)", len(sets)+1, args[1])}
+		sets[e] = newFS()
+		return []Value{e}
 	}
-	it.natives["flag.Args"] = func(it *Interp, args []Value) []Value {
-		s := &SliceV{elems: []Value{}}
-		for _, p := range positional {
-			s.elems = append(s.elems, p)
+	it.natives["(*flag.FlagSet).Parse"] = func(it *Interp, args []Value) []Value {
+		e, _ := args[0].(*Ext)
+		fs := sets[e]
+		if fs == nil {
+			panic(undecided{"Parse of a flag.FlagSet that flag.NewFlagSet did not create"})
 		}
-		return []Value{s}
+		var a []string
+		if s, ok := args[1].(*SliceV); ok && s != nil {
+			for _, x := range s.elems {
+				str, _ := x.(string)
+				a = append(a, str)
+			}
+		}
+		parseArgs(fs, a) // a bad flag ends the process (ExitOnError) — ContinueOnError is not modelled
+		if !strings.Contains(e.desc, "error handling 1") {
+			panic(undecided{"a flag.FlagSet whose error handling is not flag.ExitOnError"})
+		}
+		return []Value{Nil{}}
 	}
 	// ---- files ----
 	open := func(mode string) func(it *Interp, args []Value) []Value {
@@ -201,6 +253,30 @@ func runCLI(r *Repo, sc cliScenario) (tr cliTrace) {
 	it.natives["(*os.File).Close"] = func(it *Interp, args []Value) []Value { return []Value{Nil{}} }
 	it.natives["(*os.File).Sync"] = func(it *Interp, args []Value) []Value { return []Value{Nil{}} }
 	it.natives["io.NopCloser"] = func(it *Interp, args []Value) []Value { return []Value{args[0]} }
+	it.natives["io.Copy"] = func(it *Interp, args []Value) []Value {
+		tr.readFrom = describeStream(args[1])
+		if sc.failRead {
+			return []Value{int64(0), &Ext{"error: read"}}
+		}
+		text := "package p\ntype P Peg {}\nA <- .\n"
+		for _, w := range []string{"(*strings.Builder).WriteString", "(*bytes.Buffer).WriteString"} {
+			if f := it.natives[w]; f != nil {
+				ok := true
+				func() {
+					defer func() {
+						if recover() != nil {
+							ok = false
+						}
+					}()
+					f(it, []Value{args[0], text})
+				}()
+				if ok {
+					return []Value{int64(len(text)), Nil{}}
+				}
+			}
+		}
+		panic(undecided{"io.Copy into " + describe(args[0])})
+	}
 	it.natives["io.ReadAll"] = func(it *Interp, args []Value) []Value {
 		tr.readFrom = describeStream(args[0])
 		if sc.failRead {
@@ -375,13 +451,42 @@ func finalLocation(tr cliTrace) string {
 	return "file w:" + p
 }
 
+// cliVerdict caches the evaluation behind R-cli-semantics for the rules that yield to it.
+type cliResult struct {
+	bad []string
+	und string
+	n   int
+}
+
+var (
+	cliOnce sync.Once
+	cliRes  cliResult
+)
+
+func cliVerdict(r *Repo) cliResult {
+	cliOnce.Do(func() { cliRes.bad, cliRes.und, cliRes.n = cliEvaluate(r) })
+	return cliRes
+}
+
 func cliSemantics(c *Check, r *Repo) {
 	construct := "main/exit status, destination, source and option wiring on modelled command lines"
+	res := cliVerdict(r)
+	if res.und != "" {
+		c.Und("R-cli-semantics", construct, r.pos(r.pkg("").Syntax[0].Pos()), res.und)
+		return
+	}
+	bad, n := res.bad, res.n
+	c.Decide(len(bad) == 0 && n >= 60, "R-cli-semantics", construct, "",
+		fmt.Sprintf("%d evaluations of main (14 command lines: default, nested and absolute grammar paths, -output file / = / -, standard input, each option flag and all of them × success, syntax error, generation failure, read failure, unopenable grammar, unopenable destination, no file writable, moving a file fails): exit status 0 exactly when the text Compile wrote is at the requested destination when main ends and Compile returned nil; grammar, destination, tree.New arguments and Strict as the command line says; create+truncate on the destination", n),
+		strings.Join(bad, "; "))
+}
+
+func cliEvaluate(r *Repo) (bad []string, und string, n int) {
 	type cmd struct {
-		argv      []string
-		dest      string // expected writer given to Compile
-		src       string // expected reader
-		wantNew   string
+		argv       []string
+		dest       string // expected writer given to Compile
+		src        string // expected reader
+		wantNew    string
 		wantStrict string
 	}
 	base := "inline=false switch=false noast=false"
@@ -401,8 +506,6 @@ func cliSemantics(c *Check, r *Repo) {
 		{[]string{"peg", "-strict", "g.peg"}, "file w:g.peg.go", "file r:g.peg", base, "true"},
 		{[]string{"peg", "-inline", "-switch", "-noast", "-strict", "-output", "x.go", "g.peg"}, "file w:x.go", "file r:g.peg", "inline=true switch=true noast=true", "true"},
 	}
-	var bad []string
-	n := 0
 	for _, cm := range cmds {
 		line := strings.Join(cm.argv, " ")
 		grammar := ""
@@ -449,8 +552,7 @@ func cliSemantics(c *Check, r *Repo) {
 			tr := runCLI(r, s.sc)
 			n++
 			if tr.und != "" {
-				c.Und("R-cli-semantics", construct, r.pos(r.pkg("").Syntax[0].Pos()), "`"+line+"`: "+tr.und)
-				return
+				return nil, "`" + line + "`: " + tr.und, n
 			}
 			where := "`" + line + "` when " + s.name
 			if s.sc.failOpen == destPath && destPath != "" && tr.exit == 0 && finalLocation(tr) == cm.dest && !strings.Contains(strings.Join(tr.opens, " "), "(fails)") {
@@ -506,7 +608,5 @@ func cliSemantics(c *Check, r *Repo) {
 	if len(bad) > 5 {
 		bad = append(bad[:5], fmt.Sprintf("… %d more", len(bad)-5))
 	}
-	c.Decide(len(bad) == 0 && n >= 60, "R-cli-semantics", construct, "",
-		fmt.Sprintf("%d evaluations of main (14 command lines: default, nested and absolute grammar paths, -output file / = / -, standard input, each option flag and all of them × success, syntax error, generation failure, read failure, unopenable grammar, unopenable destination, no file writable, moving a file fails): exit status 0 exactly when the text Compile wrote is at the requested destination when main ends and Compile returned nil; grammar, destination, tree.New arguments and Strict as the command line says; create+truncate on the destination", n),
-		strings.Join(bad, "; "))
+	return bad, "", n
 }
